@@ -54,7 +54,9 @@ DtsT == <<DtRec(D4, T1), DtRec(D5, T1), DtRec(D6, T2), DtRec(Date(-271821, 4, 19
 TimesR == <<T2, T0, T3>>
 Dur1 == DurOfSeq(<<1, 2, 3, 4, 5, 6, 7, 8, 9, 10>>)             \* P1Y2M3W4DT5H6M7.008009010S: ten distinct fields
 DursR == <<NegDur(Dur1), ZeroDur, DurOfSeq(<<0, 0, 0, 0, 36, 0, 0, 0, 0, 0>>), DurOfSeq(<<0, 0, 0, 1, 0, 0, 0, 0, 0, 0>>),
-           DurOfSeq(<<0, 0, 0, 0, 0, 0, 0, 0, 0, 2000000000>>)>>
+           DurOfSeq(<<0, 0, 0, 0, 0, 0, 0, 0, 0, 2000000000>>),
+           \* days and time part of opposite signs: the value of the unchecked constructor from_day_and_time (built through it in both layers)
+           DurOfSeq(<<0, 0, 0, 2, -5, -30, 0, 0, 0, 0>>), DurOfSeq(<<0, 0, 0, -1, 0, 0, 1, 0, 0, 0>>)>>
 I1 == EParts(DFC(D1), 47655, Sub1)
 InstsQ == <<I1, EParts(0, 0, 0), EParts(-1, 86399, 999999995), EParts(-300000, 5, 7), EParts(100000000, 0, 0), EParts(-100000000, 0, 0)>>
 \* -2^64 ns = day -213504, second 1526, ns 290448384: exactly -2^64, one above (not expressible as sign-and-magnitude (high, low)), one below
